@@ -516,6 +516,15 @@ pub fn query_replies(case: &Case, h: &Hist) -> Vec<Violation> {
                 _ => None,
             })
             .collect();
+        // A model may read only the first replies and drop the rest.
+        let mut expected = expected;
+        if let Actor::Node(n) = s.actor {
+            if let Some(t) = case.nodes[n as usize].reply_take {
+                expected.truncate(t as usize);
+            }
+        }
+        let full_expected_len = expected.len();
+        let _ = full_expected_len;
         // Connections added while the query was in flight may or may not take part (at the end).
         let mut got = s.replies.clone();
         if got.len() > expected.len() && !racing.is_empty() {
